@@ -290,7 +290,7 @@ pub fn run(rep: &mut Report, property: &str, cfgname: &str, sc: SoloCfg) {
         canon_certs: true,
         max_states: sc.max_states,
         wall_cap_s: sc.wall_cap_s,
-        big_pool: false,
+        big_pool: true, // `solo` keeps no `GState`: the pool-item table may grow freely
     };
     let s = Search::new(cfg.clone());
     let l0 = s.boot_local(sc.node);
